@@ -6,6 +6,11 @@ cd "$(dirname "$0")"
 python3 ../translator/consts.py "${VERIF_REPO:-/repo}/include" Consts.v
 python3 ../translator/bittools.py "${VERIF_REPO:-/repo}/include" BitToolsGen.v
 python3 ../translator/layout.py "${VERIF_REPO:-/repo}/include" LayoutGen.v
+# the accessor translator leaves out a class it cannot handle (the proofs about that class then fail to compile, the
+# others stay); any other failure removes its output so that nothing stale is used
+python3 ../translator/access.py "${VERIF_REPO:-/repo}/include" AccessGen.v AccessTrieGen.v || {
+  echo "translator/access.py failed: AccessGen.v / AccessTrieGen.v are not built"
+  rm -f AccessGen.v AccessGen.vo AccessTrieGen.v AccessTrieGen.vo; }
 { echo "-Q . X"
   for f in *.v; do
     [ "$f" = Extract.v ] && continue
